@@ -157,11 +157,13 @@ def _compile_mutant(c, node):
     mod = importlib.import_module(path[:-3].replace("/", "."))
     nd = copy.deepcopy(node)
     nd.decorator_list = []
+    # compiled into the *live* namespace of the module under another name: stand-ins that a bounded-rung adaptor puts
+    # into the module (patched callees) are seen by the mutant exactly as by the original
+    nd.name = f"__mutant_of_{nd.name}"
     m = ast.Module([nd], [])
     ast.fix_missing_locations(m)
-    ns = dict(mod.__dict__)
-    exec(compile(m, "<mutant>", "exec"), ns)  # noqa: S102
-    return ns[nd.name]
+    exec(compile(m, "<mutant>", "exec"), mod.__dict__)  # noqa: S102
+    return mod.__dict__.pop(nd.name)
 
 
 def work(job):
